@@ -153,6 +153,12 @@ def v_cases(tier, part):
                             yield {"entry": "e.html" if "e.html" in fs else "t.html", "files": fs,
                                    "lkw": dict(lkw), "vals": {"m0": kind},
                                    "lns": lkw.get("autoescape") == "esc2"}
+                            # Template(source, loader=that loader, autoescape=...) : the explicit argument wins
+                            for ta in (None, "xhtml_escape"):
+                                if ta != lkw.get("autoescape", "xhtml_escape") and (ta is None or not lkw.get("autoescape")):
+                                    yield {"mode": "both", "entry": "e.html" if "e.html" in fs else "t.html", "files": fs,
+                                           "lkw": dict(lkw), "tkw": {"autoescape": ta}, "vals": {"m0": kind},
+                                           "lns": lkw.get("autoescape") == "esc2"}
                         if len(files) == 1:
                             for tkw in V_DIRECT:
                                 yield {"mode": "direct", "entry": "t.html", "files": fs,
